@@ -280,7 +280,7 @@ void vf_harness(void) {
   VF_CANARY();
 }
 ''',
-    entry='String_ctor_int', unwind=13, timeout=300,
+    entry='String_ctor_int', unwind=13, timeout=300, replay=replay.from_trace('C03/driver.cpp', ['x'], lambda v: ['itoa', v['x']]),
     desc='String(int): canonical decimal text (sign, no leading zero, digits only, <= 11 chars) within capacity for all 2^32 values; the value round trip is NOT decided (SAT does not finish on the divide/multiply chain)',
     functions=['String::String(int)', 'myitoa'],
     planted=[('ctor_int', r'String_alloc\(self, 11\)', 'String_alloc(self, 9)')],
@@ -304,7 +304,7 @@ void vf_harness(void) {
   VF_CANARY();
 }
 ''',
-    entry='String_ctor_Long', unwind=22, timeout=400,
+    entry='String_ctor_Long', unwind=22, timeout=400, replay=replay.from_trace('C03/driver.cpp', ['x'], lambda v: ['ltoa', v['x']]),
     desc='String(Long): canonical decimal text within the capacity chosen by the constructor, for all 2^64 values',
     functions=['String::String(Long)', 'myltoa'],
 )
